@@ -61,6 +61,17 @@ Theorem C01_no_truncation :
 Proof. exact FrameP.C01_no_truncation. Qed.
 Print Assumptions C01_no_truncation.
 
+(* The constructor's decision depends on the length alone, for blocks of any size (the correspondence asks the
+   implementation about 2^32-byte blocks and the model about their length). *)
+Theorem C01_no_truncation_by_length :
+  (forall l, data_try_new l = match data_try_new_len (nlen l) with
+                              | Some n => Err (DataTooLong n)
+                              | None => Ok l
+                              end)
+  /\ (forall n, (data_try_new_len n = None <-> n <= 255) /\ (255 < n -> data_try_new_len n = Some n)).
+Proof. exact (conj FrameP.data_try_new_by_len FrameP.data_try_new_len_spec). Qed.
+Print Assumptions C01_no_truncation_by_length.
+
 Theorem C01_length_byte :
   forall f, wf_frame f -> hd_error (payload f) = Some (nlen (f_data f)).
 Proof. exact FrameP.C01_length_byte. Qed.
